@@ -331,8 +331,32 @@ class C07Monitor(Monitor):
         elif kind == "boundary":
             self.structure(tree)
             self.children(tree)
+            self.local_start(tree)
             self.known = {d.id for _, d in tree.all_demes}
             self.round = None
+
+    def local_start(self, tree):
+        """A local-search deme is sprouted AT its seed: the first point its search evaluates is the seed's genome (ground truth: the
+        recorder's call log, attributed through the public counters)."""
+        x = self.x
+        log = x.w.log
+        done = getattr(self, "_local_done", None)
+        if done is None:
+            done = self._local_done = set()
+        for _, d in tree.all_demes:
+            if type(d).__name__ != "LocalDeme" or d.id in done or d.n_evaluations == 0:
+                continue
+            done.add(d.id)
+            sd = seed_of(d)
+            if sd is _UNOBS or sd is None:
+                continue
+            first = next((t for t, o in enumerate(log.owner) if o == d.id), None)
+            if first is None:
+                continue
+            x.flag("first point of a local search compared with its seed")
+            if np.asarray(log.x[first], dtype=float).tobytes() != np.asarray(sd.genome, dtype=float).tobytes():
+                x.violate("C07/local-search-not-started-at-its-seed", f"LocalDeme {d.id}: the first point its search evaluated is {np.asarray(log.x[first]).tolist()}, "
+                          f"its sprout seed is {np.asarray(sd.genome).tolist()}")
 
     def structure(self, tree):
         x = self.x
@@ -759,6 +783,7 @@ class C20Monitor(Monitor):
             # the clauses 'never invoke the objective' and 'never change the tree' are judged
             dg = tree_digest(tree)
             nlog = len(w.log)
+            np_state = np.random.get_state()[1].tobytes(), np.random.get_state()[2]
             for fn in (tree.summary, tree.tree, lambda: tree.best_individual, lambda: tree.all_individuals, lambda: tree.r5s_solutions):
                 try:
                     fn()
@@ -770,6 +795,9 @@ class C20Monitor(Monitor):
                 x.violate("C20/accessor-evaluated", f"accessors invoked the objective {len(w.log) - nlog} times (objective with NaN values)")
             if tree_digest(tree) != dg:
                 x.violate("C20/accessor-changed-tree", "the tree digest changed while only reporting / query accessors were called (objective with NaN values)")
+            if (np.random.get_state()[1].tobytes(), np.random.get_state()[2]) != np_state:
+                # (NaN-against-NaN ties are settled with Python's `random` by design; numpy's generator is the one the engines draw from)
+                x.violate("C20/accessor-touched-numpy-rng", "reporting / query accessors advanced numpy's global generator: looking at the tree changes what later metaepochs evaluate")
             x.flag("boundary checked (NaN objective, reduced clauses)")
             return
         dg = tree_digest(tree)
